@@ -2,7 +2,7 @@
    quietly weakened; the lemmas live in Proofs_*.v; the model in Model.v; Gen/C17.v is
    regenerated from /repo on every run. *)
 From Coq Require Import String Permutation Sorting.Sorted.
-From Sdns Require Import Common.Base Common.GoList Gen.C17 C17.Model C17.Proofs_arith C17.Proofs_search C17.Run C17.Proofs_set C17.Proofs_loops C17.Proofs_writer C17.Proofs_policy C17.Proofs_views.
+From Sdns Require Import Common.Base Common.GoList Gen.C17 C17.Model C17.Proofs_arith C17.Proofs_search C17.Run C17.Proofs_set C17.Proofs_loops C17.Proofs_writer C17.Proofs_policy C17.Proofs_views C17.Proofs_handler.
 Open Scope N_scope.
 
 (* translator ties: the Go functions, as translated from the source now, are the order on
@@ -306,6 +306,119 @@ Example view_record_examples :
   view_answer recs (b "xsub.example."%string) 1 = [0%nat] /\       (* label boundary: not below sub.example. *)
   view_answer recs (b "example."%string) 1 = [1%nat] /\            (* a wildcard does not cover its own suffix *)
   view_answer recs (b "x.sub.example."%string) 28 = [].             (* other type: falls through *)
+Proof. vm_compute. repeat split. Qed.
+
+(* ---- the views handler as a whole (session 4): guards + first-match view selection + that view's records ---- *)
+
+(* views.ServeDNS on every transport: skipped for genuine sub-queries only, a transport without a client
+   address passes, otherwise the views are tried in declaration order by the same containment rule as
+   the access list ([spec_contains]: the address lies in at least one of the view's CIDRs) *)
+Theorem views_handler_exact : forall (views : list (list prefix * list vrec)) r q t,
+  views_wf views -> (forall a, r_ip r = Some a -> addr_ok a) ->
+  views_serve (compiled_views views) r q t =
+  if spec_subquery r then VNext else
+  match spec_client_ip r with Some a => ref_views_loop views a q t 0 | None => VNext end.
+Proof. exact views_serve_exact_l. Qed.
+Print Assumptions views_handler_exact.
+
+(* view i answers with records l  <=>  the request is a client's, i is the FIRST view in declaration order
+   whose networks contain the client's address, and l is the non-empty selection among view i's own records *)
+Theorem view_answers_iff_first_containing_view_has_record : forall views r q t i l,
+  views_wf views -> (forall a, r_ip r = Some a -> addr_ok a) ->
+  views_serve (compiled_views views) r q t = VAnswer i l <->
+  spec_subquery r = false /\
+  exists a v, spec_client_ip r = Some a /\ nth_error views i = Some v /\ spec_contains (fst v) a = true /\
+              (forall j w, (j < i)%nat -> nth_error views j = Some w -> spec_contains (fst w) a = false) /\
+              l = view_answer (snd v) q t /\ l <> [].
+Proof. exact views_answer_iff. Qed.
+Print Assumptions view_answers_iff_first_containing_view_has_record.
+
+(* the first containing view decides alone: without a record for the question the query falls through, whatever
+   later views contain the client and hold *)
+Theorem first_containing_view_decides : forall views r q t a i v,
+  views_wf views -> (forall a, r_ip r = Some a -> addr_ok a) ->
+  spec_client_ip r = Some a -> nth_error views i = Some v -> spec_contains (fst v) a = true ->
+  (forall j w, (j < i)%nat -> nth_error views j = Some w -> spec_contains (fst w) a = false) ->
+  views_serve (compiled_views views) r q t =
+  if spec_subquery r then VNext else
+  match view_answer (snd v) q t with [] => VNext | l => VAnswer i l end.
+Proof. exact first_containing_view_decides_alone. Qed.
+Print Assumptions first_containing_view_decides.
+
+(* a client no view contains is never answered by a view *)
+Theorem client_outside_every_view_falls_through : forall views r q t,
+  views_wf views -> (forall a, r_ip r = Some a -> addr_ok a) ->
+  (forall a, spec_client_ip r = Some a -> Forall (fun v => spec_contains (fst v) a = false) views) ->
+  views_serve (compiled_views views) r q t = VNext.
+Proof. exact uncontained_client_falls_through. Qed.
+Print Assumptions client_outside_every_view_falls_through.
+
+Example views_handler_examples :
+  let b := bytes_of in
+  let views := [([mk_prefix true 167772416 24], [(b "host.example."%string, 1)]);            (* 10.0.1.0/24 *)
+                ([mk_prefix true 167772160 16], [(b "*.example."%string, 1); (b "host.example."%string, 1)])] in   (* 10.0.0.0/16 *)
+  let client ip := mk_remote KUdp (Some (mk_addr true ip)) 4242 None in
+  views_wf views /\
+  (* inside both: the first view answers with its own record *)
+  views_serve (compiled_views views) (client 167772421) (b "host.example."%string) 1 = VAnswer 0 [0%nat] /\
+  (* inside both, the first has no record: falls through although the second has a covering wildcard *)
+  views_serve (compiled_views views) (client 167772421) (b "x.example."%string) 1 = VNext /\
+  (* inside the second only: exact owner beats the wildcard *)
+  views_serve (compiled_views views) (client 167772677) (b "HOST.example."%string) 1 = VAnswer 1 [1%nat] /\
+  views_serve (compiled_views views) (client 167772677) (b "x.example."%string) 1 = VAnswer 1 [0%nat] /\
+  (* outside every view; the IPv4-mapped form of an inside address; a genuine sub-query; a TCP client FROM the sentinel address *)
+  views_serve (compiled_views views) (client 168427525) (b "host.example."%string) 1 = VNext /\
+  views_serve (compiled_views views) (mk_remote KTcp (Some (mk_addr false (mapped_prefix + 167772421))) 53000 None) (b "host.example."%string) 1 = VAnswer 0 [0%nat] /\
+  views_serve (compiled_views views) subquery_remote (b "host.example."%string) 1 = VNext /\
+  views_serve (compiled_views [([mk_prefix true 2130706432 8], [(b "host.example."%string, 1)])])
+              (mk_remote KTcp (Some (mk_addr true 2130706687)) 40000 None) (b "host.example."%string) 1 = VAnswer 0 [0%nat].
+Proof. vm_compute. repeat split; repeat constructor. Qed.
+
+(* ---- the client-policy part of the default chain (session 4): access list, then views, then the cache ---- *)
+
+(* source-order tie: over the handler order gen.go has now, the chain walk is "the access list decides first,
+   then views, and what is left is resolved" (reordering the list in the source breaks this proof) *)
+Theorem chain_policy_order : forall acl views r q t,
+  chain_walk handler_order acl views r q t = chain_serve acl views r q t.
+Proof. exact chain_walk_is_serve. Qed.
+Print Assumptions chain_policy_order.
+
+(* a query whose source is outside the access list gets no reply and no resolution - also when a view contains
+   the source and holds a record for the question *)
+Theorem denied_source_gets_nothing_even_inside_a_view : forall ne ps views r q t,
+  Forall (fun p => prefix_ok p = true) ps -> (forall a, r_ip r = Some a -> addr_ok a) ->
+  spec_allowed (acl_effective ne ps) r = false ->
+  chain_walk handler_order (new_set (acl_effective ne ps)) (compiled_views views) r q t = CDrop.
+Proof. exact chain_denied. Qed.
+Print Assumptions denied_source_gets_nothing_even_inside_a_view.
+
+(* an admitted request: a genuine sub-query is never answered by a view; a client is answered by the first view
+   containing it when that view has a record (no resolution), and resolved otherwise *)
+Theorem admitted_request_view_or_resolution : forall ne ps views r q t,
+  Forall (fun p => prefix_ok p = true) ps -> views_wf views -> (forall a, r_ip r = Some a -> addr_ok a) ->
+  spec_allowed (acl_effective ne ps) r = true ->
+  chain_walk handler_order (new_set (acl_effective ne ps)) (compiled_views views) r q t =
+  if spec_subquery r then CResolve else
+  match spec_client_ip r with
+  | Some a => match ref_views_loop views a q t 0 with VAnswer i l => CView i l | VNext => CResolve end
+  | None => CResolve
+  end.
+Proof. exact chain_admitted. Qed.
+Print Assumptions admitted_request_view_or_resolution.
+
+Example chain_examples :
+  let b := bytes_of in
+  let lan := [mk_prefix true 167772160 8] in                                                  (* 10.0.0.0/8 *)
+  let views := [([mk_prefix true 167772416 24; mk_prefix true 3405803776 24], [(b "*.example."%string, 1)])] in  (* 10.0.1.0/24, 203.0.113.0/24 *)
+  let client ip := mk_remote KUdp (Some (mk_addr true ip)) 4242 None in
+  let walk := chain_walk handler_order (new_set (acl_effective 1 lan)) (compiled_views views) in
+  (* admitted and inside the view: the view answers; admitted, outside the view: resolved *)
+  walk (client 167772421) (b "x.example."%string) 1 = CView 0 [0%nat] /\
+  walk (client 167837957) (b "x.example."%string) 1 = CResolve /\
+  (* 203.0.113.9 is inside the view but outside the access list: nothing *)
+  walk (client 3405803785) (b "x.example."%string) 1 = CDrop /\
+  (* a genuine sub-query passes both and is resolved *)
+  walk subquery_remote (b "x.example."%string) 1 = CResolve.
 Proof. vm_compute. repeat split. Qed.
 
 (* non-vacuity: concrete lists and addresses meeting the hypotheses, with both verdicts *)
